@@ -81,6 +81,11 @@ def value_for(r, fd, name):
         if c < 0.12:
             return ""
         if name in ("remote_jid", "participant"):
+            c2 = r.random()
+            if c2 < 0.1:
+                # (newer group ids have no dash; the status list is a chat of its own; companion devices carry a suffix)
+                return r.choice(["1203630%s@g.us" % gen.s_from(r, gen.DIGITS, 11), "status@broadcast", "%s:%d@s.whatsapp.net" % (gen.phone(r), r.randint(1, 9)),
+                                 "%s@broadcast" % gen.s_from(r, gen.DIGITS, 10)])
             return gen.jid(r, group=r.random() < 0.3)
         if name in ("stanza_id", "id"):
             return gen.msgid(r)
